@@ -84,15 +84,16 @@ theorem crash_quiet_store (st : Static) {chain : List Block} {P : PStore} (hG : 
 
 -- ------------------------------------------------------------------ RemoveWallet opens the window
 
-/-- what is asked of the store at the moment RemoveWallet is called (C08's two open follower invariants): one credit
-    entry per key, and no unmined credit of a transaction of the chain the store follows -/
+/-- what is asked of the store at the moment RemoveWallet is called (C08's open follower invariant `pendOff`): no
+    unmined credit belongs to a transaction of the chain the store follows — stated for every chain the height table
+    describes.  (C08's other hypothesis, one credit entry per key, is an invariant of the histories:
+    `MW.Lemmas.Deepen4CredNodup`.) -/
 def RemGuard (P : PStore) : Prop :=
-  KeysNodup P.led.credits ∧
   ∀ X, (∀ h, AMap.get P.led.sync h = syncOf X h) → ∀ e ∈ P.led.pendCred, e.1.1 ∉ idsOf (occs X)
 
 theorem JQ_removeMark {cfg : Cfg} {G : Block} (cr : Bool) {x : SysQ} {k : Skel} (w : Wid) (hJ : JQ cfg.st G x k)
     (hw : (AMap.get k.ks w).isSome = true) (hne : ∀ r, AMap.get k.ks w = some r → r.addrs ≠ [])
-    (hoth : ∃ w', w' ≠ w ∧ w' ∈ walletsOf k.ks) (hg : RemGuard x.P) :
+    (hoth : ∃ w', w' ≠ w ∧ w' ∈ walletsOf k.ks) (hn : KeysNodup x.P.led.credits) (hg : RemGuard x.P) :
     JRmid cfg G (stepT cfg cr x (.removeMark w)) k w := by
   obtain ⟨hc, hks, hkeys, ⟨S, hJS, c, hcm, hSc⟩, hN, hcur, hK⟩ := hJ
   obtain ⟨hI, hv, hS, hAR, hnr, hq, hq0, hq1⟩ := hJS
@@ -115,7 +116,7 @@ theorem JQ_removeMark {cfg : Cfg} {G : Block} (cr : Bool) {x : SysQ} {k : Skel} 
   have hI' : Ledger.Inv ((lenv cfg.st k.ks).ctx k.chain) x.P.led S := by
     have : Ledger.Inv ((lenv cfg.st k.ks).ctx x.chain) x.P.led S := hI
     rw [hc] at this; exact this
-  obtain ⟨stt, hst, _, e1, e2, hM, hO, _⟩ := removeMark_run_mid H cfg.n x.V hI' hg.1 (hg.2 S hI.sync) hok
+  obtain ⟨stt, hst, _, e1, e2, hM, hO, _⟩ := removeMark_run_mid H cfg.n x.V hI' hn (hg S hI.sync) hok
   have h1 : stepT cfg cr x (.removeMark w) =
       { x with P := ((opRemoveMark cfg.n w).run none x.P x.V).P, V := ((opRemoveMark cfg.n w).run none x.P x.V).V } := rfl
   rw [h1]
